@@ -500,6 +500,7 @@ class Shelxfile():
                     print('*** ZERR instruction is missing! ***')
                 if self.latt.centric:
                     self.symmcards.set_centric(True)
+                self.symmcards.add_lattice_operators()
             elif word == "SYMM":
                 # SYMM symmetry operation
                 #  Being more greedy, because many files do this wrong:
